@@ -32,6 +32,8 @@ import (
 const (
 	tileHeight    = 8
 	leavesPerTile = 1 << tileHeight
+	// maxTreeSize is the largest tree size which tlog's proof functions can handle.
+	maxTreeSize = 1 << 62
 )
 
 // FeedLog continually feeds checkpoints from the given log into the witness.
@@ -42,6 +44,11 @@ func FeedLog(ctx context.Context, l config.Log, w feeder.Witness, c *http.Client
 	fetchProof := func(ctx context.Context, from, to log.Checkpoint) ([][]byte, error) {
 		if from.Size == 0 {
 			return [][]byte{}, nil
+		}
+		// tlog works on int64 sizes, and its arithmetic only terminates for trees of
+		// at most 2^62 leaves: refuse anything a (log-signed) checkpoint claims beyond that.
+		if to.Size > maxTreeSize || from.Size > to.Size {
+			return nil, fmt.Errorf("cannot build consistency proof between tree sizes %d and %d", from.Size, to.Size)
 		}
 		tr := tileReader{c: sdb}
 		tree := tlog.Tree{
